@@ -368,9 +368,22 @@ def replay_times(p):
         msgs.append('consolidated data')
     if not np.allclose(cons.ts, np.concatenate([np.arange(T) * 4.0 + 100.0 * m * m for m in range(nfr)])):
         msgs.append('consolidated ts')
+    if not np.isclose(cad0.obs_range, frames[-1].t_start + 4.0 * T - frames[0].t_start) or cad0.tchans != nfr * T:
+        msgs.append(f'obs_range {cad0.obs_range} / tchans {cad0.tchans}')
+    # frames whose start time is assigned after construction (as overwrite_times itself does)
+    late = [stg.Frame(fchans=3, tchans=T, df=2.0, dt=4.0, fch1=4096.0, t_start=5.0, seed=m) for m in range(nfr)]
+    for m, fr in enumerate(late):
+        fr.t_start = 100.0 * m * m
+    if not np.allclose(stg.Cadence(late).slew_times, [100.0 * m * m - (100.0 * (m - 1) ** 2 + 4.0 * T) for m in range(1, nfr)]):
+        msgs.append(f'natural slew times of frames whose start time was reassigned: {stg.Cadence(late).slew_times}')
     cad = stg.Cadence(frames, t_slew=7.5, t_overwrite=True)
     if not np.allclose(cad.slew_times, 7.5):
         msgs.append(f'slew times after overwrite {cad.slew_times}')
+    want = [frames[0].t_start + m * (4.0 * T + 7.5) for m in range(nfr)]
+    if not np.allclose([fr.t_start for fr in frames], want, rtol=1e-12):
+        msgs.append(f'start times after overwrite {[fr.t_start for fr in frames]}, expected {want}')
+    if not np.isclose(cad.obs_range, want[-1] + 4.0 * T - want[0]):
+        msgs.append(f'obs_range after overwrite {cad.obs_range}, expected {want[-1] + 4.0 * T - want[0]}')
     return bool(msgs), '; '.join(msgs) or 'ok'
 
 
